@@ -43,6 +43,12 @@ UNITS = {
     "1EHZ|1|D|A|7|||": ("D", 7, None, "A"),
     "1EHZ|1|E|DG|1001|P|alt|B|sym": ("E", 1001, "B", "DG"),
     "1EHZ|1|F|PSU|5||||6_555": ("F", 5, None, "PSU"),
+    # ids that share all but one field with an id above (decoded after it, in the same process): chain / name / insertion code / number differs
+    "1EHZ|1|B|G|10": ("B", 10, None, "G"),
+    "1EHZ|1|A|C|10": ("A", 10, None, "C"),
+    "1EHZ|1|A|G|10|||X": ("A", 10, "X", "G"),
+    "1EHZ|1|A|G|11": ("A", 11, None, "G"),
+    "2XYZ|2|A|G|10": ("A", 10, None, "G"),
 }
 BAD_UNITS = ["1EHZ|1|A|G", "1EHZ|1|A|G|x", "1EHZ|1|A|G|", "1EHZ|1|A|G|1.5", "G10", ""]
 U1, U2 = "1EHZ|1|A|G|10", "1EHZ|1|B|C|25|||X"
@@ -168,15 +174,29 @@ def fr3d_facts(chk, labels: Dict[str, Any]) -> Optional[str]:
     try:
         # ---- unit ids ------------------------------------------------------------------------------------------------------
         bad: Dict[str, str] = {}
-        for u in UNITS:
+        after_others: List[str] = []
+
+        def decode(u: str) -> Any:
             try:
-                got = world["parse_unit_id"](u)
+                return world["parse_unit_id"](u)
             except Unknown:
                 raise
             except Exception as ex:
-                got = "raises " + describe(ex)
+                return "raises " + describe(ex)
+
+        proc.restart()
+        fresh0 = proc.snapshot()
+        for u in UNITS:  # one after the other in one process ...
+            got = decode(u)
             if got != residue(u):
                 bad[u] = got if isinstance(got, str) else repr(got)
+        changed = [n for n, v in proc.snapshot().items() if fresh0.get(n) != v]
+        for u in list(bad):  # ... and what was wrong once more in a process of its own
+            proc.restart()
+            if decode(u) == residue(u):
+                after_others.append(f"`{u}` is decoded as {bad.pop(u)} after the ids {', '.join('`' + x + '`' for x in list(UNITS)[: list(UNITS).index(u)][-3:])} ... were decoded in the same process, and as {residue(u)!r} in a process of its own" + (f" (state the calls left behind: {', '.join(n if n.startswith('default') else 'module-level `' + n + '`' for n in changed)})" if changed else ""))
+        proc.restart()
+        obligations.append(lambda: F.expect(not after_others, "import-history", pu.where, f"{len(UNITS)} unit ids decoded one after the other in one process (among them ids that differ in a single field) are decoded as in a process of their own", "; ".join(after_others[:1]) + ": the answer depends on the ids seen before", K(pu, "unit-history"), found=after_others[:4]))
         accepted = []
         for u in BAD_UNITS:
             try:
@@ -186,7 +206,7 @@ def fr3d_facts(chk, labels: Dict[str, Any]) -> Optional[str]:
                 raise
             except Exception:
                 pass
-        obligations.append(lambda bad=bad: F.expect(not bad, "unit-id", pu.where, f"{len(UNITS)} unit ids (5, 7, 8, 9 fields; empty / non-empty insertion code; negative number) give Residue(None, ResidueAuth(chain = field 3, number = int(field 5), icode = field 8 or None, name = field 4))", "unit ids are decoded wrongly: " + "; ".join(f"`{u}` -> {g} (expected {residue(u)!r})" for u, g in list(bad.items())[:3]), K(pu, "unit-id-eval"), expected={u: repr(residue(u)) for u in list(bad)[:6]}, found=dict(list(bad.items())[:6])))
+        obligations.append(lambda bad=bad: F.expect(not bad, "unit-id", pu.where, f"{len(UNITS)} unit ids (5, 7, 8, 9 fields; empty / non-empty insertion code; negative number; ids differing in one field) give Residue(None, ResidueAuth(chain = field 3, number = int(field 5), icode = field 8 or None, name = field 4))", "unit ids are decoded wrongly: " + "; ".join(f"`{u}` -> {g} (expected {residue(u)!r})" for u, g in list(bad.items())[:3]), K(pu, "unit-id-eval"), expected={u: repr(residue(u)) for u in list(bad)[:6]}, found=dict(list(bad.items())[:6])))
         obligations.append(lambda accepted=accepted: F.expect(not accepted, "unit-id", pu.where, f"{len(BAD_UNITS)} ids without a residue number / with a non-numeric number are rejected", "a unit id without a parsable residue number is accepted: " + "; ".join(accepted[:3]), K(pu, "unit-id-reject"), found=accepted[:6]))
 
         # ---- the categories the normaliser returns ---------------------------------------------------------------------------
@@ -286,12 +306,12 @@ def fr3d_facts(chk, labels: Dict[str, Any]) -> Optional[str]:
             raised.append(f"comment / blank lines: {exc}")
         elif objs:
             lines_bad.append(f"a comment or blank line files {[o for _, o in objs][:2]!r}")
-        seq = [(U1, U2), (U2, U1), (U1, U1)]
-        objs, exc = listing(["# head"] + [f"{a}\t{lab}\t{b}" for a, b in seq[:2]] + ["", "# between"] + [f"{seq[2][0]}\t{lab}\t{seq[2][1]}"])
+        seq = [(U1, U2), (U2, U1), (U1, U1), (U1, "1EHZ|1|B|G|10"), ("1EHZ|1|A|G|10|||X", "1EHZ|1|A|C|10")]  # the last ids share all but one field with U1
+        objs, exc = listing(["# head"] + [f"{a}\t{lab}\t{b}" for a, b in seq[:2]] + ["", "# between"] + [f"{a}\t{lab}\t{b}" for a, b in seq[2:]])
         if exc is not None:
-            raised.append(f"three lines: {exc}")
+            raised.append(f"{len(seq)} lines: {exc}")
         elif [tuple(o[1:3]) for _, o in objs if isinstance(o, tuple)] != [(residue(a), residue(b)) for a, b in seq]:
-            lines_bad.append(f"three `{lab}` lines (with a blank and a comment line between them) file {len(objs)} object(s) / not in file order: {[o for _, o in objs][:3]!r}"[:300])
+            lines_bad.append(f"{len(seq)} `{lab}` lines (with a blank and a comment line between them) file {len(objs)} object(s) / not in file order: {[o for _, o in objs][:3]!r}"[:300])
         obligations.append(lambda: F.expect(not lines_bad, "fr3d-lines", pf.where, "comment and blank lines are skipped, every other line is processed, in file order", "; ".join(lines_bad[:2]), K(pf, "lines"), found=lines_bad[:4]))
 
         # ---- malformed lines ---------------------------------------------------------------------------------------------------
